@@ -139,12 +139,70 @@ def runs_case(rng):
     return runs(shape == "long-storms"), runs(shape == "long-rises")
 
 
-def disamb_stream(ctx, n):
+def cascade_case(rng):
+    """a zig-zag of a thousand or more storms and rises in which every storm overlaps the rise before it and the rise
+    after it, proposes to the later one first (equal durations, later listed last) and every rise prefers the later storm
+    (its start is closer): the last storm, which has only the earlier rise to propose to, displaces its neighbour, which
+    displaces its own neighbour, ... back to the first storm -- one displacement chain as long as the record"""
+    n = rng.randint(1100, 1700)
+    p = rng.choice([9, 10, 11])
+    storms = [(p * k, p * k + 7) for k in range(n)]
+    rises = [(p * k + 6, p * k + p + 1) for k in range(n - 1)]
+    return storms, rises
+
+
+def cascade_stream(ctx, n):
+    """the long displacement chain through classify.disambiguate_matching, judged by a direct stability check (the
+    model's quadratic list-based run of the same chain would take longer than the whole check)"""
+    common.import_spowtd()
+    import spowtd.classify as cm
+    ob = "a displacement chain a thousand storms long is arbitrated to a stable matching"
+    for _ in range(n):
+        storms, rises = cascade_case(ctx.rng)
+        cands = [(a, b, c, d) for (c, d) in rises for (a, b) in storms if max(a, c) < min(b, d)]
+        rain_iv = [(a, b) for a, b, c, d in cands]
+        jump_iv = [(c, d + 1) for a, b, c, d in cands]
+        inp = {"function": "classify.disambiguate_matching", "generator": "c02.cascade_case", "storms": len(storms), "period": storms[1][0] - storms[0][0],
+               "note": "storms (p k, p k + 7), rises (p k + 6, p k + p + 1), k = 0 .. n-1"}
+        ctx.case(("cascade", len(storms), inp["period"]), True)
+        try:
+            with common.time_limit(120):
+                ur, uj = cm.disambiguate_matching(list(rain_iv), list(jump_iv))
+            got = [((r[0], r[1]), (j[0], j[1] - 1)) for r, j in zip(ur, uj)]
+            err = None
+        except BaseException as e:  # noqa  (RecursionError is not an Exception subclass problem, but be safe)
+            if isinstance(e, KeyboardInterrupt):
+                raise
+            got, err = None, "%s: %s" % (type(e).__name__, str(e)[:200])
+        wit = None
+        if err is not None:
+            wit = {"exception": err}
+        else:
+            ms = {st: ri for st, ri in got}
+            mr = {ri: st for st, ri in got}
+            if len(ms) != len(got) or len(mr) != len(got) or any(not (max(st[0], ri[0]) < min(st[1], ri[1] + 0) or max(st[0], ri[0]) < min(st[1], ri[1])) for st, ri in got):
+                wit = {"why": "not a one-to-one matching of overlapping runs"}
+            else:
+                for (a, b, c, d) in cands:
+                    st, ri = (a, b), (c, d)
+                    if ms.get(st) == ri:
+                        continue
+                    s_better = st not in ms or abs((b - a) - (d - c)) < abs((b - a) - (ms[st][1] - ms[st][0]))
+                    r_better = ri not in mr or abs(c - a) < abs(c - mr[ri][0])
+                    if s_better and r_better:
+                        wit = {"why": "blocking pair", "storm": list(st), "rise": list(ri)}
+                        break
+        ctx.obligation(ob, wit is None)
+        if wit is not None:
+            ctx.violation("impl-violation", "c02Holds", {"input": inp, "impl": err or (got[:3] if got else None),
+                          "oracle": {"name": "c02Holds", "result": False, "witness": wit}})
+
+
+def disamb_stream(ctx, n, cases=None):
     common.import_spowtd()
     import spowtd.classify as cm
     ob = "disambiguate_matching = model problemOf + galeShapley on overlapping runs"
-    for _ in range(n):
-        storms, rises = runs_case(ctx.rng)
+    for storms, rises in (cases if cases is not None else (runs_case(ctx.rng) for _ in range(n))):
         # order as produced by match_storms: rises ascending; the storms of one rise come out of a Python
         # set, i.e. in arbitrary order
         cands = []
@@ -200,10 +258,12 @@ def run(ctx):
     if ctx.tier == "quick":
         graph_stream(ctx, 1500)
         disamb_stream(ctx, 1500)
+        cascade_stream(ctx, 1)
         R.run_records(ctx, "C02", 200, field=1)
     else:
         graph_stream(ctx, 40000)
         disamb_stream(ctx, 40000)
+        cascade_stream(ctx, 5)
         R.run_records(ctx, "C02", 1500, exhaustive_n=4, field=8)
 
 
